@@ -1160,9 +1160,7 @@ impl<'this> InternalOptimisingLineFormatter<'this, '_> {
     fn get_multiline_token_last_line_length(&self, token_index: usize) -> Option<u32> {
         let (token, _) = self.formatted_tokens.get_token(token_index)?;
         if let TT::TextLiteral(TextLiteralKind::MultiLine)
-        | TT::Comment(CommentKind::MultilineBlock)
-        | TT::CompilerDirective
-        | TT::ConditionalDirective(_) = token.get_token_type()
+        | TT::Comment(CommentKind::MultilineBlock) = token.get_token_type()
         {
             // Multiline tokens necessarily have a break in them, so the line
             // length must be calculated.
